@@ -9,6 +9,8 @@ calmjs.parse.unparsers.walker / ruletypes / handlers over the regenerated tables
 All statements are for ALL trees (generic `Val`), all indent strings, any fuel outcome.
 -/
 import CalmVerif.Proofs.UnparseLevel
+import CalmVerif.Proofs.UnparseBalanced
+import CalmVerif.Proofs.UnparseEnd
 import CalmVerif.Model.UnparseInst
 
 namespace CalmVerif.Props.C20
@@ -26,6 +28,32 @@ theorem defs_indent_net_zero :
 of the markers its key is made of -/
 theorem indent_table_normalisations_balanced :
     tableNetOK Gen.Rules.rs_indent.layout = true := by decide
+
+/-- `defs_indent_balanced`.  In every definition, on every path through its `Optional` bodies, `Indent`
+immediately follows each block opener (`OpenBlock`, a literal `{`, the `:` of `Case` / `Default`) and
+`Dedent` precedes its closer (`CloseBlock`, a literal `}`, the end of a `Case` / `Default` definition)
+with nothing but newline markers in between, groups nest in bracket order, and separator definitions
+contain none of these (checker: Proofs/UnparseBalanced.lean);  every tuple normalisation of the `indent`
+table that mentions `Indent` / `Dedent` is balanced and resolves to the no-op handler
+(`(Indent, Newline, Dedent) ↦ noop`). -/
+theorem defs_indent_balanced :
+    defsIndentBalanced Gen.Defs.definitions = true ∧
+    tupleNormsBalanced Gen.Rules.rs_indent.layout = true := by decide
+
+/-- non-vacuity of the checker: it rejects `Case` without its `Dedent`, and an `Object` that indents twice -/
+example : defBalanced "Case" [.text "case" (some 0), .attr (.name "expr") (some 0), .text ":" (some 0),
+    .layout .Indent, .layout .Newline, .joinAttr (.name "elements") [.layout .Newline] (some 0)] = false := by
+  decide
+example : defBalanced "Object" [.text "{" (some 0), .optional "properties" [.layout .Indent, .layout .Indent,
+    .layout .Newline, .joinAttr (.name "properties") [.text "," (some 0), .layout .Newline] (some 0),
+    .layout .Dedent, .layout .Newline], .text "}" (some 0)] = false := by decide
+
+/-- the program definition ends with `OptionalNewline`, whose handler is the Indentator's optional newline,
+and no tuple normalisation of the table ends with `OptionalNewline` -/
+theorem program_ends_with_optional_newline :
+    ((lookupDef Gen.Defs.definitions "ES5Program").map (rulesEndWith .OptionalNewline) = some true) ∧
+    lookupLayout Gen.Rules.rs_indent.layout (LKey.single .OptionalNewline) = some .indNewlineOptional ∧
+    noTupleEndsWith Gen.Rules.rs_indent.layout .OptionalNewline = true := by decide
 
 /-! ### T: level returns to zero -/
 
@@ -57,16 +85,67 @@ def printsAs (indent : Option String) (tree : Val) (text : String) : Bool :=
 set_option maxRecDepth 100000 in
 example : printsAs (some "\t") exampleTree "{\n\ta;\n}\n" = true := by decide
 
-/-! ### finding KF-20a: an EMPTY indent string is not used as given -/
+/-! ### T: non-empty output ends with exactly one newline -/
 
-/-- `Indentator('')`: `self.indent_str if self.indent_str else dispatcher.indent_str` — the empty string
-is falsy, so `pretty_printer(indent_str='')` indents by the Dispatcher default (two spaces), not by
-"" × depth.  (Stated under the probed flag so that it survives a repair of /repo.) -/
-theorem empty_indent_string_falls_back :
-    Gen.Rules.indentatorEmptyFallsBack = true →
-      printsAs (some "") exampleTree "{\n  a;\n}\n" = true ∧
-      printsAs (some "") exampleTree "{\na;\n}\n" = false := by
+/-- the Dispatcher / handler constants the newline handlers rely on -/
+theorem hdata_pretty (indent : Option String)
+    (hi : ∀ c ∈ (effIndent hdataGen indent).toList, isLT c = false) : HDataPretty hdataGen indent :=
+  ⟨by decide, by decide, by decide, hi⟩
+
+/--
+`ends_with_one_newline` (partial: the three hypotheses below are explicit and decidable).
+For every program tree (root `ES5Program`, ANY attributes) and indent string whose effective indentation
+contains no line terminator: if, in the chunk stream of the walk,
+  * every token fragment has a non-empty text that does not end with a line terminator (`tokensCleanB`), and
+  * every unconditional `Newline` among the layout markers after the last token is followed by a marker that
+    always prints (`;` `{` `}`)  (`tailSafe`; true of parser output: every `Newline` rule of the definitions is
+    followed by a token or a non-empty child — checked on every program of the tie by `drv_unparse tailsafe`),
+then the printed text ends with a `\n` that is not preceded by another line terminator.
+(An empty program prints exactly "\n".)
+-/
+theorem ends_with_one_newline_partial (indent : Option String) (attrs : List (String × Val))
+    (chunks : List Chunk)
+    (hw : walkChunks (prettyCfg indent) (.node "ES5Program" attrs) () = .ok (chunks, ()))
+    (hi : ∀ c ∈ (effIndent hdataGen indent).toList, isLT c = false)
+    (hclean : tokensCleanB chunks = true)
+    (hsafe : tailSafe (normalize Gen.Rules.rs_indent.layout (trailing chunks [])) = true) :
+    EndsWithOneNewline (charsOf (flushAll (prettyCfg indent) chunks none [] 0).1) := by
+  obtain ⟨hdef, hl, hnt⟩ := program_ends_with_optional_newline
+  obtain ⟨rs, hrs⟩ : ∃ rs, lookupDef Gen.Defs.definitions "ES5Program" = some (rs ++ [.layout .OptionalNewline]) := by
+    cases hd : lookupDef Gen.Defs.definitions "ES5Program" with
+    | none => rw [hd] at hdef; simp at hdef
+    | some d =>
+      rw [hd] at hdef
+      simp only [Option.map_some, Option.some.injEq] at hdef
+      obtain ⟨rs, rfl⟩ := rulesEndWith_spec _ d hdef
+      exact ⟨rs, rfl⟩
+  obtain ⟨cs0, rfl⟩ := walkNode_last_marker (prettyCfg indent) "ES5Program" attrs rs .OptionalNewline
+    .indNewlineOptional hrs hl _ _ _ _ _ _ hw
+  have hlevel : (flushAll (prettyCfg indent)
+      (cs0 ++ [.layout .OptionalNewline .indNewlineOptional (.node "ES5Program" attrs)]) none [] 0).2 = 0 := by
+    exact level_returns_to_zero indent (.node "ES5Program" attrs) (flushAll (prettyCfg indent)
+      (cs0 ++ [.layout .OptionalNewline .indNewlineOptional (.node "ES5Program" attrs)]) none [] 0).1 _
+      (by simp only [unparseWith, hw])
+  exact flushAll_ends_one_newline (prettyCfg indent) (hdata_pretty indent hi) cs0 _ hnt
+    (tokensCleanB_spec _ hclean) hsafe hlevel
+
+set_option maxRecDepth 100000 in
+/-- non-vacuity: the hypotheses hold for `{ a; }` (and the conclusion is about "{\n\ta;\n}\n") -/
+example : (match walkChunks (prettyCfg (some "\t")) exampleTree () with
+    | .ok (chunks, _) => tailSafe (normalize Gen.Rules.rs_indent.layout (trailing chunks [])) &&
+        tokensCleanB chunks && (tokenFrags chunks).all (fun f => f.text == "a")
+    | .error _ => false) = true := by decide
+
+/-! ### fixed finding KF-20a: an EMPTY indent string is used as given -/
+
+/-- `Indentator('')` once fell back to the Dispatcher's indent string (`self.indent_str if self.indent_str
+else …`: the empty string is falsy), so `pretty_printer(indent_str='')` indented by two spaces instead of
+"" × depth.  Repaired in /repo (`is not None`); the translator probes the behaviour
+(`Gen.Rules.indentatorEmptyFallsBack`) and this obligation breaks if it returns. -/
+theorem empty_indent_string_is_used :
+    Gen.Rules.indentatorEmptyFallsBack = false ∧
+      printsAs (some "") exampleTree "{\na;\n}\n" = true ∧
+      printsAs none exampleTree "{\n  a;\n}\n" = true := by
   set_option maxRecDepth 100000 in decide
-
 
 end CalmVerif.Props.C20
